@@ -6,6 +6,7 @@ package watchbuild
 
 import (
 	"context"
+	"errors"
 	"fmt"
 	"io"
 	"log/slog"
@@ -29,6 +30,8 @@ type Project struct {
 	Handler *generatecmd.FSEventHandler
 	clock   time.Time
 	Bin     string
+	// FailWrites: that many of the handler's next file writes fail.
+	FailWrites int
 }
 
 var discard = slog.New(slog.NewTextHandler(io.Discard, nil))
@@ -67,7 +70,14 @@ func New(nRoots int) (*Project, error) {
 	if sum, err := os.ReadFile(filepath.Join(repoDir(), "go.sum")); err == nil {
 		_ = os.WriteFile(filepath.Join(dir, "go.sum"), sum, 0o644)
 	}
-	p.Handler = generatecmd.NewFSEventHandler(discard, dir, true, nil, false, false, generatecmd.FileWriter, false)
+	p.Handler = generatecmd.NewFSEventHandler(discard, dir, true, nil, false, false, func(name string, contents []byte) error {
+		if p.FailWrites > 0 {
+			// a full disk, a file locked by another tool: the save cannot be completed
+			p.FailWrites--
+			return errors.New("write fault injected by the harness: " + filepath.Base(name))
+		}
+		return generatecmd.FileWriter(name, contents)
+	}, false)
 	return p, nil
 }
 
